@@ -357,6 +357,19 @@ class Interp:
             return fmt_num(v)
         if isinstance(v, str):
             return ("'" + v + "'") if nested else v
+        if isinstance(v, (LyList, LyTuple, LyMap)):
+            # a structure that contains itself recurses natively in the VM
+            path = self.__dict__.setdefault('str_path', [])
+            if any(x is v for x in path):
+                raise Refuse('printing a cyclic structure')
+            path.append(v)
+            try:
+                return self.to_str_collection(v)
+            finally:
+                path.pop()
+        return self.to_str_other(v, nested)
+
+    def to_str_collection(self, v):
         if isinstance(v, LyList):
             return '[' + ', '.join(self.to_str(x, True) for x in v.items) + ']'
         if isinstance(v, LyTuple):
@@ -367,6 +380,8 @@ class Interp:
             if len(v.d) > 1:
                 raise Refuse('printing a map with several entries (hash order)')
             return '{ ' + ', '.join(self.to_str(k, True) + ': ' + self.to_str(x, True) for k, x in v.d.values()) + ' }'
+
+    def to_str_other(self, v, nested):
         if isinstance(v, LyInstance):
             m = v.cls.methods.get('str')
             if m is not None and not isinstance(m, LyNative):
